@@ -4,4 +4,4 @@ From H3V Require Import Base.Bytes Spec.C06Liveness.
 Extraction Language OCaml.
 Extraction "C06_model.ml"
   N.add N.mul N.div_eucl N.eqb Datatypes.length
-  rx_state lost mentioned must_complete acceptable.
+  rx_state lost stopped mentioned must_complete must_complete_bp acceptable.
